@@ -36,6 +36,7 @@ type treeTxn struct {
 	lastIW  map[string]<-chan struct{} // channel of the last InsertWatch/ModifyWatch per key (if it was the last write to the key)
 	canNote bool
 	ops     int
+	pend    []*treeWatch // watch channels obtained through the open transaction
 }
 
 type heldIter struct {
@@ -65,6 +66,11 @@ type treeWatch struct {
 	kind   int
 	key    string
 	closed bool
+	// obtained through an open transaction that was later committed and notified: origin is the version it
+	// produced; selfAny tells whether that transaction changed anything (then its own notification may close
+	// the channel)
+	fromTxn bool
+	selfAny bool
 }
 
 type treeWorld struct {
@@ -250,6 +256,16 @@ func chainChanged(origin *ver, match func(changed map[string]bool) bool) (must b
 
 // pollWatches evaluates the watch-channel rules after every step (C12).
 func (w *treeWorld) pollWatches(step string) bool {
+	for _, tx := range w.openSorted() {
+		for _, tw := range tx.pend {
+			select {
+			case <-tw.ch:
+				w.r.Violate("C12", "closed-before-notify", "after %s: a watch channel for %q obtained through a still open transaction (derived from tree version %d) is closed before any Notify", step, tw.key, tx.base.id)
+				return false
+			default:
+			}
+		}
+	}
 	for _, tw := range w.watches {
 		closed := false
 		select {
@@ -274,7 +290,13 @@ func (w *treeWorld) pollWatches(step string) bool {
 			}
 		}
 		must, anyChange := chainChanged(tw.origin, match)
+		if tw.fromTxn && tw.selfAny {
+			anyChange = true
+		}
 		kind := [...]string{"root", "Get", "Prefix", "InsertWatch"}[tw.kind]
+		if tw.fromTxn {
+			kind = "Txn." + kind
+		}
 		if must && !closed {
 			w.r.Violate("C12", "not-closed", "after %s: the %s(%q) watch channel obtained from tree version %d is still open although a committed and notified transaction changed it", step, kind, tw.key, tw.origin.id)
 			return false
@@ -537,7 +559,7 @@ func (w *treeWorld) txnOp(tx *treeTxn) bool {
 	k := w.key()
 	w.nextID++
 	val := w.nextID * 10
-	switch c.Weighted([]int{10, 3, 5, 2, 8, 6, 3, 3, 3, 3}) {
+	switch c.Weighted([]int{10, 3, 5, 2, 8, 6, 3, 3, 3, 3, 4}) {
 	case 8: // burst of inserts: grows nodes past every size threshold within one transaction
 		n := 5 + c.Choose(60)
 		for i := 0; i < n; i++ {
@@ -663,6 +685,36 @@ func (w *treeWorld) txnOp(tx *treeTxn) bool {
 		w.probe("txn-cloned")
 		r.Logf("txn Clone -> clone%d", cv.id)
 		return w.checkOps(fmt.Sprintf("clone%d", cv.id), &cl, cv.model, 2)
+	case 10: // watch channel obtained through the open transaction (C12)
+		if !tx.canNote || len(tx.pend) >= 6 {
+			return true
+		}
+		q := w.queryKey()
+		var ch <-chan struct{}
+		kind := wGet
+		if c.Choose(3) == 0 {
+			kind = wPrefix
+			_, ch = tx.txn.Prefix(kb(q))
+		} else {
+			_, ch, _ = tx.txn.Get(kb(q))
+			if _, ok := tx.model[q]; !ok {
+				w.probe("txn-watch-absent-key")
+			}
+		}
+		if ch == nil {
+			r.Violate("C12", "nil-watch", "nil watch channel returned by the open transaction for %q", q)
+			return false
+		}
+		select {
+		case <-ch:
+			r.Violate("C12", "closed-at-handout", "the %s(%q) watch channel handed out by the open transaction (derived from tree version %d, which no notified transaction was derived from yet) is already closed", [...]string{"root", "Get", "Prefix", "InsertWatch"}[kind], q, tx.base.id)
+			return false
+		default:
+		}
+		tx.pend = append(tx.pend, &treeWatch{id: w.next, ch: ch, kind: kind, key: q, fromTxn: true})
+		w.next++
+		w.probe("watch-through-open-txn")
+		r.Logf("txn watch %d(%q) obtained", kind, q)
 	case 7: // iterator taken inside the transaction, consumed after later writes
 		if len(w.iters) >= 8 {
 			return true
@@ -715,6 +767,14 @@ func (w *treeWorld) finish(lineage int, tx *treeTxn) bool {
 		if !w.pollWatches("Commit (before Notify)") {
 			return false
 		}
+		for _, tw := range tx.pend {
+			select {
+			case <-tw.ch:
+				r.Violate("C12", "closed-before-notify", "a watch channel for %q obtained through the transaction is closed after Commit, before Notify", tw.key)
+				return false
+			default:
+			}
+		}
 		tx.txn.Notify()
 		w.link(tx, nv)
 		r.Logf("txn Commit; Notify -> v%d changed=%d", nv.id, len(tx.changed))
@@ -754,6 +814,16 @@ func (w *treeWorld) link(tx *treeTxn, nv *ver) {
 			w.probe("insertwatch-registered")
 		}
 	}
+	for _, tw := range tx.pend {
+		tw.origin = nv
+		tw.selfAny = len(tx.changed) > 0
+		if len(w.watches) >= 40 {
+			w.watches = w.watches[1:]
+		}
+		w.watches = append(w.watches, tw)
+		w.probe("txn-watch-registered")
+	}
+	tx.pend = nil
 	if len(tx.changed) == 0 {
 		w.probe("notified-txn-without-change")
 	}
@@ -801,3 +871,16 @@ func keyUniverse(c *simcore.Choices) []string {
 }
 
 var _ = bytes.Compare
+
+func (w *treeWorld) openSorted() []*treeTxn {
+	ls := make([]int, 0, len(w.open))
+	for l := range w.open {
+		ls = append(ls, l)
+	}
+	sort.Ints(ls)
+	out := make([]*treeTxn, 0, len(ls))
+	for _, l := range ls {
+		out = append(out, w.open[l])
+	}
+	return out
+}
